@@ -148,4 +148,59 @@ theorem pay_atoms_bind (pm pm' : PayParams G1 G2) (close close' : F) (pub pub' :
     p.kNonce = p'.kNonce ∧ p.kClose = p'.kClose :=
   payTranscript_inj pm pm' close close' pub pub' p p' ctx ctx' h1 h2 h3 h4 h5 h6 h7 h
 
+/-! ### byte-level binding of the pay transcript -/
+
+theorem rangeAtoms_shape (ps : List (SProof F G1 G2)) :
+    (rangeAtoms ps).map Atom.shape =
+      (List.replicate ps.length [(1, 48), (1, 48), (2, 96), (2, 96)]).flatten := by
+  induction ps with
+  | nil => rfl
+  | cons p ps ih =>
+    simp only [rangeAtoms, List.flatMap_cons, List.map_append, List.length_cons, List.replicate_succ,
+      List.flatten_cons] at ih ⊢
+    rw [ih]
+    rfl
+
+theorem sigs_atoms_shape (σs : List (Sig G1)) :
+    (σs.flatMap (Sig.atoms (F := F) (G2 := G2))).map Atom.shape =
+      (List.replicate σs.length [(1, 48), (1, 48)]).flatten := by
+  induction σs with
+  | nil => rfl
+  | cons σ σs ih =>
+    simp only [List.flatMap_cons, List.map_append, List.length_cons, List.replicate_succ, List.flatten_cons] at ih ⊢
+    rw [ih]
+    rfl
+
+/-- shapes of a pay transcript depend only on the tuple / parameter-set lengths and the context length -/
+theorem payTranscript_shape (pm pm' : PayParams G1 G2) (close close' : F) (pub pub' : PayPub F)
+    (p p' : PayProofM F G1 G2) (ctx ctx' : List UInt8)
+    (h1 : pm.pk.y1s.length = pm'.pk.y1s.length) (h2 : pm.pk.y2s.length = pm'.pk.y2s.length)
+    (h3 : pm.rp.sigs.length = pm'.rp.sigs.length) (h4 : pm.rp.pk.y1s.length = pm'.rp.pk.y1s.length)
+    (h5 : pm.rp.pk.y2s.length = pm'.rp.pk.y2s.length)
+    (h6 : p.cbR.length = p'.cbR.length) (h7 : p.mbR.length = p'.mbR.length) (h8 : ctx.length = ctx'.length) :
+    (payTranscript pm close pub p ctx).map Atom.shape = (payTranscript pm' close' pub' p' ctx').map Atom.shape := by
+  simp only [payTranscript, RangeParams.atoms, CProof.atoms1, SProof.atoms, Sig.atoms, CProof.atoms2,
+    List.map_append, pk_atoms_shape, rangeAtoms_shape, sigs_atoms_shape, List.map_cons, List.map_nil,
+    Atom.shape, h1, h2, h3, h4, h5, h6, h7, h8]
+
+/-- No field of a pay proof other than a response scalar — and no key or range-parameter element,
+nonce or context byte — can be altered without altering the byte string the merchant hashes
+(byte-level form of `pay_atoms_bind`, for the repaired layout). -/
+theorem pay_transcript_binds (cd : Codecs F G1 G2) (hcd : cd.Lawful) (pm pm' : PayParams G1 G2)
+    (close close' : F) (pub pub' : PayPub F) (p p' : PayProofM F G1 G2) (ctx ctx' : List UInt8)
+    (h1 : pm.pk.y1s.length = pm'.pk.y1s.length) (h2 : pm.pk.y2s.length = pm'.pk.y2s.length)
+    (h3 : pm.rp.sigs.length = pm'.rp.sigs.length) (h4 : pm.rp.pk.y1s.length = pm'.rp.pk.y1s.length)
+    (h5 : pm.rp.pk.y2s.length = pm'.rp.pk.y2s.length)
+    (h6 : p.cbR.length = p'.cbR.length) (h7 : p.mbR.length = p'.mbR.length) (h8 : ctx.length = ctx'.length)
+    (hb : (payTranscript pm close pub p ctx).bytes cd = (payTranscript pm' close' pub' p' ctx').bytes cd) :
+    pm.pk = pm'.pk ∧ pm.rp = pm'.rp ∧ pub.nonce = pub'.nonce ∧ close = close' ∧ ctx = ctx' ∧
+    p.rl.C = p'.rl.C ∧ p.rl.T = p'.rl.T ∧ p.st.C = p'.st.C ∧ p.st.T = p'.st.T ∧
+    p.cl.C = p'.cl.C ∧ p.cl.T = p'.cl.T ∧ p.tok.first = p'.tok.first ∧
+    p.cbR.map SProof.first = p'.cbR.map SProof.first ∧
+    p.mbR.map SProof.first = p'.mbR.map SProof.first ∧
+    p.kNonce = p'.kNonce ∧ p.kClose = p'.kClose :=
+  pay_atoms_bind pm pm' close close' pub pub' p p' ctx ctx' h1 h2 h3 h4 h5 h6 h7
+    (transcript_bytes_inj cd hcd _ _
+      (payTranscript_shape pm pm' close close' pub pub' p p' ctx ctx' h1 h2 h3 h4 h5 h6 h7 h8) hb)
+
 end ZkVerif.C12
